@@ -1,7 +1,9 @@
 /-! DeviceLocal.ProcessCmd + FeatureLocal/NodeManagement.HandleMessage + the Sender's counter and request cache
     + the binding / subscription registries as far as the write gate and the notification fan-out of an accepted
     write need them (grant, delete, entity removed, disconnect), for several connected peers.
-    Payloads are abstract (a function id); the data effect of a write is recorded, not computed.
+    Payloads are abstract: a function id and, for data the local features hold, a value id (the identity of the
+    operation that set it: a remote write, or `SetData` / `UpdateData` of the local application); a read replies with
+    the current value id, a notification carries it.
     Responses are computed by pure functions, the state (message counters, unanswered-request caches, registries,
     announced remote features) is threaded separately.
 
@@ -25,9 +27,15 @@ structure Cfg where
   /-- `RemoveBindingsForEntity` compares the entity address only, not the device: a peer's entity removal or
       disconnect also drops the bindings other peers hold for an equally numbered entity (C10) -/
   entRemovalAnyPeer : Bool := true
+  /-- `PrintMessageOverview` dereferences the reference of a reply / result, the result data and its error number,
+      for incoming and for outgoing datagrams (C05): such datagrams panic, and so does answering a request without
+      msgCounter. Off: they are processed like any other datagram (the answer to a request without counter carries
+      no reference). -/
+  overviewPanics : Bool := true
 deriving DecidableEq, Repr
 
-def Cfg.clean : Cfg := { resultOnResult := false, unbindDisjunct := false, entRemovalAnyPeer := false }
+def Cfg.clean : Cfg :=
+  { resultOnResult := false, unbindDisjunct := false, entRemovalAnyPeer := false, overviewPanics := false }
 
 structure LF where          -- local feature
   ent : List Nat
@@ -50,7 +58,7 @@ deriving Repr
 structure Dg where
   src : Addr
   dst : Addr
-  ctr : Nat
+  ctr : Option Nat          -- msgCounter (absent: not well-formed, but the repaired code serves it)
   ref : Option Nat
   cls : Cls
   ack : Bool
@@ -58,13 +66,17 @@ structure Dg where
                             -- 903 = destination list data, 904 = subscription data, 905 = binding data
   bad : Bool := false       -- a write payload the update engine rejects (abstract input: e.g. a partial write of a
                             -- function whose data type supports no partial update)
+  val : Nat := 0            -- value id of a write payload
+  noErr : Bool := false     -- the result data (fn = 900) carries no error number
+  dstDev : Option Nat := some 0   -- device part of the destination address as sent; `some 0` = the local device's
 deriving Repr
 
 inductive Out
-  | reply (ref : Nat) (fn : Nat) (src dst : Addr)
-  | result (ref : Nat) (err : Nat) (src dst : Addr)
+  | reply (ref : Option Nat) (fn : Nat) (src dst : Addr) (val : Nat) (sdev : Option Nat)   -- value id carried, device part of the source
+  | result (ref : Option Nat) (err : Nat) (src dst : Addr) (sdev : Option Nat)
   | readReq (fn : Nat) (src dst : Addr)
-  | notify (fn : Nat) (src dst : Addr)
+  | notify (fn : Nat) (src dst : Addr) (val : Nat)
+  | subReq                                  -- the local node management asks the peer's for a subscription (a `call`)
   | panic
 deriving Repr, DecidableEq
 
@@ -83,6 +95,7 @@ structure W where
   binds : List Entry
   subs : List Entry := []
   written : List (Addr × Nat) := []              -- (local feature, function) whose data a peer has set
+  data : Addr → Nat → Nat := fun _ _ => 0        -- current value id per local feature and function (0 = never set)
   cfg : Cfg := {}
   fresh : Peer := ⟨[], 0, []⟩                     -- a peer right after connection and discovery reply
 
@@ -92,13 +105,17 @@ def srcF (w : W) (p : Nat) (d : Dg) : Option RF :=
 def dstF (w : W) (d : Dg) : Option LF :=
   w.loc.find? fun f => f.ent = d.dst.1 && f.feat = d.dst.2
 
-/-- PrintMessageOverview dereferences the reference of a reply / result and the result data of a result -/
-def panics (d : Dg) : Bool :=
-  ((d.cls = .reply || d.cls = .result) && d.ref.isNone) || (d.cls = .result && d.fn ≠ 900)
+/-- what the unrepaired PrintMessageOverview trips over in an incoming datagram: a reply / result without reference,
+    a result without result data or without error number -/
+def inPanics (d : Dg) : Bool :=
+  ((d.cls = .reply || d.cls = .result) && d.ref.isNone) || (d.cls = .result && (d.fn ≠ 900 || d.noErr))
+
+/-- well-formed as far as this layer is concerned: counter present and nothing `inPanics` names -/
+def wf (d : Dg) : Bool := !inPanics d && d.ctr.isSome
 
 /-- verdict of NodeManagement.HandleMessage (empty payloads): error number or acceptance, and whether a reply was sent -/
 def handleNM (d : Dg) : Option Nat × Bool :=
-  if d.fn = 900 then (none, false)                         -- processResult
+  if d.fn = 900 then (if d.noErr then (some 1, false) else (none, false))   -- processResult
   else if d.fn = 901 || d.fn = 902 then
     match d.cls with
     | .read => (none, true)
@@ -118,7 +135,7 @@ def handleNM (d : Dg) : Option Nat × Bool :=
 /-- verdict of FeatureLocal.HandleMessage for everything but writes -/
 def handleF (lf : LF) (rf : RF) (d : Dg) : Option Nat × Bool :=
   match d.cls with
-  | .result => if d.fn = 900 then (none, false) else (some 1, false)
+  | .result => if d.fn = 900 && !d.noErr then (none, false) else (some 1, false)
   | .read =>
     if lf.role = .client then (some 7, false)
     else if lf.fds.contains d.fn then (none, true) else (some 1, false)
@@ -137,7 +154,18 @@ def writable (lf : LF) (fn : Nat) : Bool := lf.ops.any fun o => o.1 = fn && o.2
 def gateOk (w : W) (p : Nat) (lf : LF) (d : Dg) : Bool :=
   writable lf d.fn && (w.binds.any fun b => b.1 = d.dst && b.2.1 = p && b.2.2 = d.src)
 
-def res (d : Dg) (e : Nat) : Out := .result d.ctr e d.dst d.src
+def res (d : Dg) (e : Nat) : Out := .result d.ctr e d.dst d.src (some 0)
+
+/-- the error result for an unknown destination echoes the destination address as sent, device part included -/
+def resU (d : Dg) : Out := .result d.ctr 4 d.dst d.src d.dstDev
+
+/-- what a reply carries: the current value id of the function's data; node management computes its data — the
+    number of the caller's subscriptions / bindings for subscription / binding data, not modelled (0) otherwise -/
+def replyVal (w : W) (p : Nat) (lf : LF) (d : Dg) : Nat :=
+  if lf.nm then
+    (if d.fn = 904 then (w.subs.filter fun s => s.2.1 = p).length
+     else if d.fn = 905 then (w.binds.filter fun s => s.2.1 = p).length else 0)
+  else w.data d.dst d.fn
 
 /-- the replies and results emitted for a datagram whose source and destination features are known -/
 def responses (w : W) (p : Nat) (lf : LF) (rf : RF) (d : Dg) : List Out :=
@@ -147,7 +175,7 @@ def responses (w : W) (p : Nat) (lf : LF) (rf : RF) (d : Dg) : List Out :=
   else match handle lf rf d with
     | (some e, _) => if d.cls ≠ .result then [res d e] else []
     | (none, replied) =>
-      (if replied then [Out.reply d.ctr d.fn d.dst d.src] else []) ++
+      (if replied then [Out.reply d.ctr d.fn d.dst d.src (replyVal w p lf d) (some 0)] else []) ++
       (if d.ack && (d.cls = .call || d.cls = .reply || d.cls = .notify) then [res d 0] else [])
 
 /-- after a failing notify the stack asks for the data itself, if the local feature knows the function -/
@@ -178,12 +206,18 @@ def setPeer (w : W) (p : Nat) (pr : Peer) : W := { w with peers := fun q => if q
 def applies (w : W) (p : Nat) (lf : LF) (d : Dg) : Bool :=
   d.cls = .write && gateOk w p lf d && !lf.nm && lf.fds.contains d.fn && !d.bad
 
-def record (w : W) (app : Bool) (d : Dg) : W :=
-  if app then { w with written := (d.dst, d.fn) :: w.written } else w
+def setData (f : Addr → Nat → Nat) (a : Addr) (fn v : Nat) : Addr → Nat → Nat :=
+  fun a' fn' => if a' = a ∧ fn' = fn then v else f a' fn'
 
-/-- the notifications an accepted write fans out: one per subscription on the written feature, in registry order -/
-def notifs (w : W) (d : Dg) : List (Nat × Out) :=
-  (w.subs.filter fun s => s.1 = d.dst).map fun s => (s.2.1, Out.notify d.fn d.dst s.2.2)
+def record (w : W) (app : Bool) (d : Dg) : W :=
+  if app then { w with written := (d.dst, d.fn) :: w.written, data := setData w.data d.dst d.fn d.val } else w
+
+/-- the notifications a data change fans out: one per subscription on the feature, in registry order, carrying the
+    new value -/
+def notifsAt (w : W) (a : Addr) (fn v : Nat) : List (Nat × Out) :=
+  (w.subs.filter fun s => s.1 = a).map fun s => (s.2.1, Out.notify fn a s.2.2 v)
+
+def notifs (w : W) (d : Dg) : List (Nat × Out) := notifsAt w d.dst d.fn d.val
 
 /-- every message written to a connection draws a counter there -/
 def count (q : Nat) (outs : List (Nat × Out)) : Nat := (outs.filter fun o => o.1 = q).length
@@ -192,6 +226,12 @@ def bump (w : W) (outs : List (Nat × Out)) : W :=
   { w with peers := fun q => sendN (w.peers q) (count q outs) }
 
 def tag (p : Nat) (outs : List Out) : List (Nat × Out) := outs.map fun o => (p, o)
+
+/-- does the unrepaired PrintMessageOverview panic on this step: on the incoming datagram, or on the first answer to
+    a request without counter (approximated as "before anything is done"; such requests are not driven against the
+    pinned code) -/
+def crashes (w : W) (p : Nat) (lf : LF) (rf : RF) (d : Dg) : Bool :=
+  w.cfg.overviewPanics && (inPanics d || (d.ctr.isNone && !(responses w p lf rf d).isEmpty))
 
 /-- one inbound datagram of peer `p`; the outputs are tagged with the connection they are written to -/
 def processCmd (w : W) (p : Nat) (d : Dg) : W × List (Nat × Out) :=
@@ -202,9 +242,11 @@ def processCmd (w : W) (p : Nat) (d : Dg) : W × List (Nat × Out) :=
     match dstF w d with
     | none =>
       -- as written: the error result is sent before the classifier is looked at, also in answer to a result
-      if d.cls = .result && !w.cfg.resultOnResult then (w0, []) else (bump w0 [(p, res d 4)], [(p, res d 4)])
+      if d.cls = .result && !w.cfg.resultOnResult then (w0, [])
+      else if w.cfg.overviewPanics && d.ctr.isNone then (w0, [(p, .panic)])
+      else (bump w0 [(p, resU d)], [(p, resU d)])
     | some lf =>
-      if panics d then (w0, [(p, .panic)]) else
+      if crashes w p lf rf d then (w0, [(p, .panic)]) else
       let outs := (if applies w p lf d then notifs w d else []) ++ tag p (responses w p lf rf d)
       let w1 := bump (record w0 (applies w p lf d) d) outs
       if wantsRead w p lf rf d then
@@ -218,6 +260,7 @@ inductive Call
   | bind (c s : Addr) (typ : Nat)      -- nodeManagementBindingRequestCall: client, server, server feature type
   | unbind (c s : Addr)                -- nodeManagementBindingDeleteCall (client device = the sender's or omitted)
   | sub (c s : Addr) (typ : Nat)       -- nodeManagementSubscriptionRequestCall
+  | unsub (c s : Addr)                 -- nodeManagementSubscriptionDeleteCall (client device = the sender's or omitted)
 deriving Repr
 
 def nmAddr : Addr := ([0], 0)
@@ -245,6 +288,10 @@ def callOk (w : W) (p : Nat) : Call → Bool
     match locF w s, remF w p c with
     | some lf, some rf => srvOk lf typ && cliOk rf typ && !(w.subs.any fun b => b.1 = s && b.2.1 = p && b.2.2 = c)
     | _, _ => false
+  | .unsub c s =>
+    match locF w s, remF w p c with
+    | some _, some _ => w.subs.any fun b => b.1 = s && b.2.1 = p && b.2.2 = c
+    | _, _ => false
 
 /-- which entries `RemoveBinding` drops -/
 def unbindDrops (cfg : Cfg) (s : Addr) (p : Nat) (c : Addr) (b : Entry) : Bool :=
@@ -258,6 +305,7 @@ def callApply (w : W) (p : Nat) : Call → W
   | .bind c s _ => { w with binds := w.binds ++ [(s, p, c)] }
   | .unbind c s => { w with binds := w.binds.filter fun b => !unbindDrops w.cfg s p c b }
   | .sub c s _ => { w with subs := w.subs ++ [(s, p, c)] }
+  | .unsub c s => { w with subs := w.subs.filter fun b => !(b.1 = s && b.2.1 = p && b.2.2 = c) }
 
 def connected (w : W) (p : Nat) : Bool := (remF w p nmAddr).isSome
 
@@ -265,9 +313,9 @@ def connected (w : W) (p : Nat) : Bool := (remF w p nmAddr).isSome
 def processCall (w : W) (p : Nat) (ctr : Nat) (ack : Bool) (k : Call) : W × List (Nat × Out) :=
   if !connected w p then (w, []) else
   if callOk w p k then
-    let outs := if ack then [(p, Out.result ctr 0 nmAddr nmAddr)] else []
+    let outs := if ack then [(p, Out.result (some ctr) 0 nmAddr nmAddr (some 0))] else []
     (bump (callApply w p k) outs, outs)
-  else (bump w [(p, Out.result ctr 1 nmAddr nmAddr)], [(p, Out.result ctr 1 nmAddr nmAddr)])
+  else (bump w [(p, Out.result (some ctr) 1 nmAddr nmAddr (some 0))], [(p, Out.result (some ctr) 1 nmAddr nmAddr (some 0))])
 
 def hasEnt (w : W) (p : Nat) (e : List Nat) : Bool := (w.peers p).feats.any fun f => f.ent = e
 
@@ -280,16 +328,29 @@ def removeEnt (w : W) (p : Nat) (e : List Nat) : W :=
 /-- partial discovery notification "entity `e` removed", from the peer's node management -/
 def processEntRem (w : W) (p : Nat) (e : List Nat) (ctr : Nat) (ack : Bool) : W × List (Nat × Out) :=
   if !connected w p then (w, []) else
-  let outs := if ack then [(p, Out.result ctr 0 nmAddr nmAddr)] else []
+  let outs := if ack then [(p, Out.result (some ctr) 0 nmAddr nmAddr (some 0))] else []
   (bump (if hasEnt w p e then removeEnt w p e else w) outs, outs)
 
 /-- partial discovery notification "entity `e` added" with the features the peer announced for it at first -/
 def processEntAdd (w : W) (p : Nat) (e : List Nat) (ctr : Nat) (ack : Bool) : W × List (Nat × Out) :=
   if !connected w p then (w, []) else
-  let outs := if ack then [(p, Out.result ctr 0 nmAddr nmAddr)] else []
+  let outs := if ack then [(p, Out.result (some ctr) 0 nmAddr nmAddr (some 0))] else []
   let pr := w.peers p
   let feats := (pr.feats.filter fun f => f.ent ≠ e) ++ (w.fresh.feats.filter fun f => f.ent = e)
   (bump (setPeer w p { pr with feats := feats }) outs, outs)
+
+/-- a repeated discovery *reply* of a connected peer (legal at any time): every announced entity is announced again
+    with its features (new feature objects in the code; the registries keep their entries, which stay addressable),
+    the device-added event makes the local node management ask again for the subscription and the use-case data
+    (withheld while the identical request is unanswered), then the acknowledgement if requested -/
+def processReann (w : W) (p : Nat) (ctr : Nat) (ref : Option Nat) (ack : Bool) : W × List (Nat × Out) :=
+  if !connected w p then (w, []) else
+  let pr1 := { answered (w.peers p) ref with feats := w.fresh.feats }
+  let r1 := request pr1 nmAddr 1000
+  let r2 := request r1.1 nmAddr 902
+  let outs := (if r1.2 then [(p, Out.subReq)] else []) ++ (if r2.2 then [(p, Out.readReq 902 nmAddr nmAddr)] else []) ++
+    (if ack then [(p, Out.result (some ctr) 0 nmAddr nmAddr (some 0))] else [])
+  (setPeer w p (sendN r2.1 (if ack then 1 else 0)), outs)
 
 /-- `RemoveRemoteDeviceConnection`: the registries lose what `RemoveSubscriptionsForDevice` /
     `RemoveBindingsForDevice` drop (entity by entity), the connection's sender and tree are gone -/
@@ -303,6 +364,16 @@ def dropPeer (w : W) (p : Nat) : W :=
     management and use-case read outstanding) -/
 def connPeer (w : W) (p : Nat) : W := if (w.peers p).feats.isEmpty then setPeer w p w.fresh else w
 
+/-- `SetData` / `UpdateData` of the local application on a feature that holds data for the function: the value is
+    set and the subscribers of the feature are notified -/
+def localSet (w : W) (a : Addr) (fn v : Nat) : W × List (Nat × Out) :=
+  match locF w a with
+  | some lf =>
+    if lf.fds.contains fn && !lf.nm then
+      (bump { w with data := setData w.data a fn v } (notifsAt w a fn v), notifsAt w a fn v)
+    else (w, [])
+  | none => (w, [])
+
 inductive Op
   | dg (p : Nat) (d : Dg)
   | call (p : Nat) (ctr : Nat) (ack : Bool) (k : Call)
@@ -310,6 +381,8 @@ inductive Op
   | entAdd (p : Nat) (e : List Nat) (ctr : Nat) (ack : Bool)
   | drop (p : Nat)
   | conn (p : Nat)
+  | setData (a : Addr) (fn v : Nat)
+  | reann (p : Nat) (ctr : Nat) (ref : Option Nat) (ack : Bool)
 deriving Repr
 
 def step (w : W) : Op → W × List (Nat × Out)
@@ -319,6 +392,8 @@ def step (w : W) : Op → W × List (Nat × Out)
   | .entAdd p e ctr ack => processEntAdd w p e ctr ack
   | .drop p => (dropPeer w p, [])
   | .conn p => (connPeer w p, [])
+  | .setData a fn v => localSet w a fn v
+  | .reann p ctr ref ack => processReann w p ctr ref ack
 
 def run (w : W) (ops : List Op) : W := ops.foldl (fun w o => (step w o).1) w
 
